@@ -104,6 +104,7 @@ class State:
         self.counters: Dict[str, int] = {}
         self.minlen: Dict[Term, int] = {}  # guaranteed minimum length (in bytes) of a bytes source
         self.notes: List[str] = []
+        self.class_objs: Dict[Tuple[str, str], Term] = {}   # class-level attribute values read on this path (one object per class attribute)
         self.cm_stack: List[Tuple[Dict[str, Term], int]] = []   # (caller environment, yields so far) per generator context manager being run
 
     def fork(self) -> "State":
@@ -117,6 +118,7 @@ class State:
         s.minlen = dict(self.minlen)
         s.notes = list(self.notes)
         s.cm_stack = [(dict(e), n) for e, n in self.cm_stack]
+        s.class_objs = dict(self.class_objs)
         return s
 
     def fresh(self, base: str) -> str:
@@ -308,6 +310,63 @@ class Interp:
             else:
                 raise AnalysisError(f"stray {sig[0]} in {fi.key}")
         return outs
+
+    # -- class-level attributes ----------------------------------------------
+    _MUTATORS = {"append", "extend", "insert", "pop", "remove", "clear", "update", "setdefault", "add", "discard", "popitem", "sort", "reverse", "__setitem__", "__delitem__"}
+
+    def _class_attr_mutated(self, attr: str) -> Optional[str]:
+        """Where some function of the package mutates `<expr>.attr` in place (item store / delete, mutator method, augmented assignment)."""
+        memo = self.__dict__.setdefault("_mutated_memo", {})
+        if attr in memo:
+            return memo[attr]
+        found = None
+        for m in self.prog.all_modules(True):
+            for fi in m.all_functions():
+                for n in ast.walk(fi.node):
+                    tg: List[ast.AST] = []
+                    if isinstance(n, ast.Assign):
+                        tg = [t for t in n.targets if isinstance(t, ast.Subscript)]
+                    elif isinstance(n, ast.AugAssign):
+                        tg = [n.target]
+                    elif isinstance(n, ast.Delete):
+                        tg = [t for t in n.targets if isinstance(t, ast.Subscript)]
+                    for t in tg:
+                        b = t.value if isinstance(t, ast.Subscript) else t
+                        if isinstance(b, ast.Attribute) and b.attr == attr:
+                            found = found or f"{m.relpath}:{n.lineno} {fi.qualname}"
+                    if isinstance(n, ast.Call) and isinstance(n.func, ast.Attribute) and n.func.attr in self._MUTATORS and isinstance(n.func.value, ast.Attribute) and n.func.value.attr == attr:
+                        found = found or f"{m.relpath}:{n.lineno} {fi.qualname}"
+        memo[attr] = found
+        return found
+
+    def class_attr_value(self, ci: ClassInfo, attr: str, init: ast.AST, st: State, ctx: Ctx, node: ast.AST) -> Term:
+        """Value of an attribute found on the class, not on the instance.  It is ONE object for all instances and all
+        calls: a one-shot iterator there is drained by its first consumer, and a container mutated in place through
+        instances is state shared by all of them (both are hazards, see terms.HAZARDS)."""
+        key = (ci.key, attr)
+        if key in st.class_objs:
+            return st.class_objs[key]
+        v = self.eval(init, st, Ctx(None, ci.module, ctx.depth))
+        lazy = isinstance(v, tuple) and v and (v[0] in ("filterobj", "lazymap", "map", "zipobj", "enumobj", "revbytes") or (v[0] == "mapobj" and len(v) == 3)
+                                              or (v[0] == "obj" and v[1] in st.heap and st.heap[v[1]].name.startswith("gen:")))
+        if lazy and ctx.fi is not None:
+            T.HAZARDS[("ONESHOT", f"{ci.key}.{attr}")] = (f"class-level {ci.name}.{attr} = {ast.unparse(init)[:80]} is a one-shot iterator shared by every instance; {ctx.fi.qualname} consumes it: "
+                                                         f"the first use drains it and every later use (of any instance) sees it empty")
+            if v[0] == "obj":
+                st.heap[v[1]].fields["$born"] = c(getattr(self, "cur_serial", None))
+        if isinstance(v, tuple) and v and v[0] == "obj" and v[1] in st.heap and st.heap[v[1]].kind in ("list", "set", "dict"):
+            ho = st.heap[v[1]]
+            where_m = self._class_attr_mutated(attr)
+            if where_m is not None:
+                # content at the time of the call is whatever all instances have put there so far
+                T.HAZARDS[("SHARED", f"{ci.key}.{attr}")] = (f"{ci.name}.{attr} is created once in the class body ({ast.unparse(init)[:60]}) and mutated in place at {where_m}: "
+                                                            f"it is one container shared by every instance, so what one instance stores is seen by all others")
+                ho.symbolic = True
+                ho.items = []
+            ho.name = f"{ci.name}.{attr}"
+            ho.fresh = False
+        st.class_objs[key] = v
+        return v
 
     # -- memoised functions -------------------------------------------------
     # A cache decorator changes nothing observable when the function is a constant table: constant arguments (classes,
@@ -507,6 +566,34 @@ class Interp:
                     else:
                         tests.append(ast.Compare(left=left, ops=[ast.Is()], comparators=[ast.Constant(value=q.value)]))
                 return ast.BoolOp(op=ast.And(), values=tests) if len(tests) > 1 else tests[0]
+            if isinstance(p, ast.MatchSequence):
+                # [p0, p1, *rest, pk]: a list / tuple (not text) of matching length whose items match
+                stars = [i for i, q in enumerate(p.patterns) if isinstance(q, ast.MatchStar)]
+                if len(stars) > 1:
+                    raise AnalysisError(f"unsupported match pattern (two stars) at {ctx.loc(node)}")
+                n_fixed = len(p.patterns) - len(stars)
+                L = ast.Load()
+                tests2: List[ast.expr] = [ast.Call(func=ast.Name(id="isinstance", ctx=L), args=[subj, ast.Tuple(elts=[ast.Name(id="list", ctx=L), ast.Name(id="tuple", ctx=L)], ctx=L)], keywords=[]),
+                                          ast.Compare(left=ast.Call(func=ast.Name(id="len", ctx=L), args=[subj], keywords=[]), ops=[ast.GtE() if stars else ast.Eq()], comparators=[ast.Constant(value=n_fixed)])]
+                for i, q in enumerate(p.patterns):
+                    if isinstance(q, ast.MatchStar):
+                        if q.name is not None:
+                            after = len(p.patterns) - i - 1
+                            sl = ast.Slice(lower=ast.Constant(value=i), upper=(ast.UnaryOp(op=ast.USub(), operand=ast.Constant(value=after)) if after else None), step=None)
+                            pre.append(ast.Assign(targets=[ast.Name(id=q.name, ctx=ast.Store())], value=ast.Subscript(value=subj, slice=sl, ctx=L)))
+                        continue
+                    idx = i if not stars or i < stars[0] else i - len(p.patterns)
+                    item = ast.Subscript(value=subj, slice=ast.Constant(value=idx) if idx >= 0 else ast.UnaryOp(op=ast.USub(), operand=ast.Constant(value=-idx)), ctx=L)
+                    if isinstance(q, ast.MatchAs) and q.pattern is None:
+                        if q.name is not None:
+                            pre.append(ast.Assign(targets=[ast.Name(id=q.name, ctx=ast.Store())], value=item))
+                    elif isinstance(q, ast.MatchValue):
+                        tests2.append(ast.Compare(left=item, ops=[ast.Eq()], comparators=[q.value]))
+                    elif isinstance(q, ast.MatchSingleton):
+                        tests2.append(ast.Compare(left=item, ops=[ast.Is()], comparators=[ast.Constant(value=q.value)]))
+                    else:
+                        raise AnalysisError(f"unsupported pattern {type(q).__name__} inside a sequence pattern at {ctx.loc(node)}")
+                return ast.BoolOp(op=ast.And(), values=tests2)
             raise AnalysisError(f"unsupported match pattern {type(p).__name__} at {ctx.loc(node)}")
 
         chain: Optional[ast.If] = None
@@ -569,12 +656,14 @@ class Interp:
         if g is None:
             raise AnalysisError(f"yield outside a modelled generator at {ctx.loc(y)}")
         if isinstance(y, ast.YieldFrom):
-            items = self.iter_items(self.eval(y.value, st, ctx), st, ctx, y)
+            yv = self.eval(y.value, st, ctx)
+            items = self.iter_items(yv, st, ctx, y)
             if items is None:
                 raise AnalysisError(f"yield from an iterable of unknown length at {ctx.loc(y)}")
             st.heap[g[1]].items.extend(items)
         else:
-            st.heap[g[1]].items.append(self.eval(y.value, st, ctx) if y.value is not None else c(None))
+            yv = self.eval(y.value, st, ctx) if y.value is not None else c(None)    # (first: a nested call may replace the heap entry)
+            st.heap[g[1]].items.append(yv)
         return self._flush(st, ctx, y)
 
     def st_Return(self, node: ast.Return, st: State, ctx: Ctx) -> List[Tuple[State, Any]]:
@@ -995,8 +1084,13 @@ class Interp:
         raise AnalysisError(f"while loop does not terminate within the unrolling bound at {ctx.loc(node)}")
 
     def _iter_root(self, itv: Term) -> Term:
-        while isinstance(itv, tuple) and itv and itv[0] == "lazymap":
-            itv = itv[2]
+        while isinstance(itv, tuple) and itv:
+            if itv[0] == "lazymap":
+                itv = itv[2]
+            elif itv[:2] in (("app", "builtins.zip"), ("app", "zip")) and len(itv) >= 3 and len({self._iter_root(x) for x in itv[2:]}) == 1:
+                itv = itv[2]        # zip of iterables that all draw from one collection: as long as that collection
+            else:
+                break
         return itv
 
     def _iter_elem(self, itv: Term, k: int, s1: State, ctx: Ctx, node: ast.AST) -> Term:
@@ -1004,6 +1098,8 @@ class Interp:
         if itv[0] == "lazymap":
             inner = self._iter_elem(itv[2], k, s1, ctx, node)
             return self.call(itv[1], [inner], {}, s1, ctx, node)
+        if itv[:2] in (("app", "builtins.zip"), ("app", "zip")) and len(itv) >= 3 and len({self._iter_root(x) for x in itv[2:]}) == 1:
+            return ("tuple", tuple(self._iter_elem(x, k, s1, ctx, node) for x in itv[2:]))
         base = self.describe(itv, s1) if itv[0] == "obj" else T.show(itv)
         elem: Term = ("sym", f"{base}[{k}]", ("elemof", itv))
         if itv[0] == "slicelist":
@@ -1033,13 +1129,96 @@ class Interp:
         return v
 
     def st_For(self, node: ast.For, st: State, ctx: Ctx) -> List[Tuple[State, Any]]:
-        itv = self.prune(self.eval(node.iter, st, ctx), st)
         out: List[Tuple[State, Any]] = []
+        it_call = node.iter
+        if isinstance(it_call, ast.Call) and _is_plain_ref(it_call.func) and not isinstance(node, ast.AsyncFor):
+            fv_ = None
+            try:
+                fv_ = self.eval(it_call.func, st.fork(), ctx)
+            except (AnalysisError, Unsupported):
+                fv_ = None
+            tg_ = self.user_target(fv_, st) if fv_ is not None else None
+            if isinstance(tg_, FunctionInfo) and is_generator(tg_) and not tg_.is_async and fv_[0] in ("func", "bound") and tg_.key not in self.stubs:
+                return self._for_over_generator(node, fv_, tg_, st, ctx)
+        itv = self.prune(self.eval(node.iter, st, ctx), st)
         flushed = self._flush(st, ctx, node)
         for s, sig in flushed:
             if sig is not None:
                 out.append((s, sig))
                 continue
+            out.extend(self._for_over(node, itv, s, ctx))
+        return out
+
+    def _for_over_generator(self, node: ast.For, fv: Term, fi: FunctionInfo, st: State, ctx: Ctx) -> List[Tuple[State, Any]]:
+        """`for x in gen(...): body [else: ...]` with gen a repository generator function, run as Python runs it: the
+        generator's body is interpreted with a hook at every `yield v` that binds x = v and runs the loop body in the
+        caller's environment, so the generator's steps and the loop's iterations interleave exactly (effects included).
+        `continue` resumes the generator; `break` / `return` / an exception of the loop body leave the generator
+        through its finally blocks only (its except clauses do not see them - the generator is closed, not thrown into)."""
+        where = ctx.loc(node)
+        call = node.iter
+        assert isinstance(call, ast.Call)
+        args, kwargs = self.eval_args(call, st, ctx)
+        out: List[Tuple[State, Any]] = []
+        for s0, sig0 in self._flush(st, ctx, node):
+            if sig0 is not None:
+                out.append((s0, sig0))
+                continue
+            self.calls_resolved.append((where, fi.key))
+            self.functions_visited[fi.key] = self.functions_visited.get(fi.key, 0) + 1
+            if ctx.depth > self.max_depth:
+                raise AnalysisError(f"inlining depth exceeded at {fi.key}")
+            bound = self.bind(fi, list(args), dict(kwargs), fv[1] if fv[0] == "bound" else None, where)
+            s0.cm_stack.append((s0.env, 0))
+            s0.env = dict(bound)
+            for name, dnode in fi.defaults().items():
+                if name not in s0.env:
+                    s0.env[name] = self.eval(dnode, s0, Ctx(None, fi.module, ctx.depth + 1))
+
+            def at_yield(s: State, value: Term) -> List[Tuple[State, Any]]:
+                genv = s.env
+                cal, n = s.cm_stack.pop()
+                s.env = dict(cal)
+                self.assign(node.target, value, s, ctx)
+                res: List[Tuple[State, Any]] = []
+                for s2, sig in self.exec_block(node.body, s, ctx):
+                    s2.cm_stack.append((s2.env, n + 1))
+                    s2.env = dict(genv)
+                    if sig is None or sig[0] == "continue":
+                        res.append((s2, None))
+                    elif sig[0] == "break":
+                        res.append((s2, ("$forbreak",)))
+                    elif sig[0] == "return":
+                        res.append((s2, ("$forreturn", sig[1])))
+                    elif sig[0] == "raise":
+                        res.append((s2, ("$forraise", sig[1])))
+                    else:
+                        res.append((s2, sig))
+                return res
+
+            nctx = Ctx(fi, fi.module, ctx.depth + 1, ctx.where_stack + (fi.qualname.split(".")[-1],), at_yield)
+            for s, sig in self.exec_block(list(fi.node.body), s0, nctx):
+                cal, _n = s.cm_stack.pop()
+                s.env = dict(cal)
+                if sig is None or (sig[0] == "return" and is_c(sig[1]) and sig[1][1] is None):
+                    out.extend(self.exec_block(node.orelse, s, ctx) if node.orelse else [(s, None)])
+                elif sig[0] == "$forbreak":
+                    out.append((s, None))
+                elif sig[0] == "$forreturn":
+                    out.append((s, ("return", sig[1])))
+                elif sig[0] == "$forraise":
+                    out.append((s, ("raise", sig[1])))
+                elif sig[0] == "raise":
+                    out.append((s, sig))
+                elif sig[0] == "return":
+                    raise AnalysisError(f"generator {fi.key} returns a value")
+                else:
+                    raise AnalysisError(f"stray {sig[0]} in {fi.key}")
+        return out
+
+    def _for_over(self, node: ast.For, itv: Term, s: State, ctx: Ctx) -> List[Tuple[State, Any]]:
+        out: List[Tuple[State, Any]] = []
+        if True:
             items = self.iter_items(itv, s, ctx, node)
             if items is not None:
                 live = [s]
@@ -1057,7 +1236,7 @@ class Interp:
                     live = nxt
                 for s1 in live:
                     out.extend(self.exec_block(node.orelse, s1, ctx) if node.orelse else [(s1, None)])
-                continue
+                return out
             # symbolic iterable: 0 .. unroll iterations, fresh element symbols
             outer = itv
             itv = self._iter_root(outer)   # length guards are keyed on the collection the items finally come from
@@ -1272,22 +1451,27 @@ class Interp:
                 self.assign(item.optional_vars, value, s, ctx)
             res: List[Tuple[State, Any]] = []
             for s2, sig in self.exec_block(body, s, ctx):
-                if sig is not None and sig[0] != "raise":
-                    raise AnalysisError(f"with-block managed by the generator {fi.key} is left by {sig[0]} at {where}")
                 s2.cm_stack.append((s2.env, 1))
                 s2.env = dict(genv)
-                res.append((s2, sig))
+                if sig is not None and sig[0] != "raise":
+                    # return / break / continue out of the block: __exit__ is called without an exception, so the
+                    # generator resumes normally after its yield; the pending jump happens once it has finished
+                    s2.env["$cm_pending"] = ("pending", sig)
+                    res.append((s2, None))
+                else:
+                    res.append((s2, sig))
             return res
 
         nctx = Ctx(fi, fi.module, ctx.depth + 1, ctx.where_stack + (fi.qualname.split(".")[-1],), at_yield)
         out: List[Tuple[State, Any]] = []
         for s, sig in self.exec_block(list(fi.node.body), st, nctx):
+            pend = s.env.get("$cm_pending")
             cal, ny = s.cm_stack.pop()
             s.env = dict(cal)
             if sig is None or sig[0] == "return":
                 if ny != 1:
                     raise AnalysisError(f"context manager {fi.key} finishes without yielding on some path at {where}")
-                out.append((s, None))
+                out.append((s, pend[1] if pend is not None else None))
             elif sig[0] == "raise":
                 out.append((s, sig))
             else:
@@ -1386,9 +1570,45 @@ class Interp:
                         out2.append((s_, a_v, None))
                         out2.append((s2, b_v, None))
                 return out2
+        if (isinstance(inner, ast.Call) and not awaited and inner.args and isinstance(inner.args[0], ast.Call) and _is_plain_ref(inner.args[0].func)
+                and (isinstance(inner.func, ast.Name) or (isinstance(inner.func, ast.Attribute) and isinstance(inner.func.value, ast.Constant)))
+                and not any(isinstance(a, ast.Starred) for a in inner.args)):
+            # consumer(gen(...), ...) with gen a repository generator function and consumer a builtin (set, list, tuple,
+            # sorted, sum, dict, "".join, ...): the generator's paths fork here - each continues with the items it yields
+            # on that path - instead of being joined into one conditional value.  Same statement, so the eager run of
+            # the generator is the lazy one (see _invoke).
+            gcall = inner.args[0]
+            gfv = None
+            try:
+                gfv = self.eval(gcall.func, st.fork(), ctx)
+            except (AnalysisError, Unsupported):
+                gfv = None
+            gt = self.user_target(gfv, st) if gfv is not None else None
+            cfv = None
+            if isinstance(gt, FunctionInfo) and is_generator(gt) and not gt.is_async:
+                try:
+                    cfv = self.eval(inner.func, st.fork(), ctx)
+                except (AnalysisError, Unsupported):
+                    cfv = None
+            if cfv is not None and cfv[0] in ("builtin", "ext", "extmeth"):
+                outg: List[Tuple[State, Term, Any]] = []
+                tmp = f"$g{getattr(gcall, 'lineno', 0)}_{getattr(gcall, 'col_offset', 0)}"
+                rewritten = ast.copy_location(ast.Call(func=inner.func, args=[ast.copy_location(ast.Name(id=tmp, ctx=ast.Load()), gcall)] + list(inner.args[1:]), keywords=inner.keywords), inner)
+                for s, gv, sig in self.eval_forking(gcall, st, ctx):
+                    if sig is not None:
+                        outg.append((s, gv, sig))
+                        continue
+                    s.env[tmp] = gv
+                    v = self.eval(rewritten, s, ctx)
+                    s.env.pop(tmp, None)
+                    for s2, sig2 in self._flush(s, ctx, inner):
+                        outg.append((s2, v, sig2))
+                return outg
         if isinstance(inner, ast.Call) and _is_plain_ref(inner.func):
             fv = self.eval(inner.func, st, ctx)
             target = self.user_target(fv, st)
+            if target is not None and getattr(target, "is_async", False) and not awaited and fv[0] in ("func", "bound") and not is_generator(target):
+                target = None       # creates a coroutine object (see call()); nothing runs here
             if target is not None:
                 args, kwargs = self.eval_args(inner, st, ctx)
                 out = []
@@ -1398,6 +1618,11 @@ class Interp:
                         continue
                     n_ev0 = len(s.events)
                     for o in self.call_user_forking(fv, args, kwargs, s, ctx, inner, awaited):
+                        if o.kind == "return" and awaited and isinstance(o.value, tuple) and o.value[:1] == ("coro",):
+                            # a plain function returned the coroutine of a repository coroutine function: awaited here
+                            for o2 in self.call_user_forking(o.value[1], list(o.value[2]), dict(o.value[3]), o.state, ctx, inner, True):
+                                out.append((o2.state, o2.value, None) if o2.kind == "return" else (o2.state, top("raised"), ("raise", o2.value)))
+                            continue
                         if o.kind == "return":
                             if awaited and not getattr(target, "is_async", True):
                                 # `await helper()` where the plain function `helper` RETURNS the awaitable of an external
@@ -1410,6 +1635,18 @@ class Interp:
                             out.append((o.state, o.value, None))
                         else:
                             out.append((o.state, top("raised"), ("raise", o.value)))
+                return out
+        if awaited and not isinstance(inner, ast.Call):
+            v0 = self.eval(inner, st, ctx)
+            if isinstance(v0, tuple) and v0[:1] == ("coro",):
+                # `await c` where c holds the coroutine of a repository coroutine function: its body runs here
+                out = []
+                for s, sig in self._flush(st, ctx, inner):
+                    if sig is not None:
+                        out.append((s, top("raised"), sig))
+                        continue
+                    for o in self.call_user_forking(v0[1], list(v0[2]), dict(v0[3]), s, ctx, inner, True):
+                        out.append((o.state, o.value, None) if o.kind == "return" else (o.state, top("raised"), ("raise", o.value)))
                 return out
         v = self.eval(node, st, ctx)
         res = []
@@ -1472,14 +1709,25 @@ class Interp:
                 raise AnalysisError(f"method without self {fi.key}")
             bound[params[0]] = selfv
             params = params[1:]
-        if len(args) > len(params):
+        va = fi.node.args.vararg
+        kwa = fi.node.args.kwarg
+        if len(args) > len(params) and va is None:
             raise AnalysisError(f"too many positional arguments for {fi.key} at {where}")
         for p, a in zip(params, args):
             bound[p] = a
+        if va is not None:
+            bound[va.arg] = ("tuple", tuple(args[len(params):]))        # *args: the surplus positional arguments
+        known = set(fi.params) | {a.arg for a in fi.node.args.kwonlyargs}
+        extra_kw: List[Tuple[Term, Term]] = []
         for k, v in kwargs.items():
             if k in bound:
                 raise AnalysisError(f"duplicate argument {k} for {fi.key} at {where}")
+            if k not in known and kwa is not None:
+                extra_kw.append((c(k), v))
+                continue
             bound[k] = v
+        if kwa is not None:
+            bound[kwa.arg] = ("cdict", tuple(extra_kw))
         return bound
 
     def call_user_forking(self, fv: Term, args: List[Term], kwargs: Dict[str, Term], st: State, ctx: Ctx, node: ast.AST, awaited: bool) -> List[Outcome]:
@@ -1803,6 +2051,28 @@ class Interp:
                 return c(_struct.calcsize(base[1][1])) if attr == "size" else base[1]
             except _struct.error:
                 pass
+        if t == "tuple" and len(base) == 3 and isinstance(base[2], tuple) and base[2][:1] == ("nt",):
+            # an instance of a typing.NamedTuple class: fields by name, the class's own methods, _replace / _asdict / _fields
+            _, ckey, names = base[2]
+            if attr in names:
+                return base[1][names.index(attr)]
+            nci = self.prog.cls(ckey)
+            p_ = nci.find_property(attr)
+            if p_ is not None:
+                return self.call_user_nested(("bound", base, p_), [], {}, st, ctx, node)
+            m_ = nci.find_method(attr)
+            if m_ is not None:
+                decos = [d.split("(")[0].split(".")[-1] for d in m_.decorators]
+                return ("func", m_) if "staticmethod" in decos else ("bound", ("class", nci), m_) if "classmethod" in decos else ("bound", base, m_)
+            if attr == "_fields":
+                return ("tuple", tuple(c(n) for n in names))
+            if attr in ("_replace", "_asdict"):
+                return ("ntmeth", base, attr)
+            ca_ = nci.class_level_init(attr)
+            if ca_ is not None:
+                return self.class_attr_value(ca_[0], attr, ca_[1], st, ctx, node)
+            st.may_raise("AttributeError", c(True), ctx.loc(node))
+            return top(f"never: NamedTuple {nci.name} has no attribute {attr}")
         if t == "module":
             r = self.prog.resolve_name(base[1], attr)
             if r is None:
@@ -1818,7 +2088,12 @@ class Interp:
                 return ("enum", EnumRef(ci.key, attr))
             m = ci.find_method(attr)
             if m is not None:
+                if any(d.split("(")[0].split(".")[-1] == "classmethod" for d in m.decorators):
+                    return ("bound", base, m)        # a classmethod reached through the class: cls is the class
                 return ("func", m)
+            ca_ = ci.class_level_init(attr)
+            if ca_ is not None:
+                return self.class_attr_value(ca_[0], attr, ca_[1], st, ctx, node)
             raise AnalysisError(f"unresolved class attribute {ci.key}.{attr} at {ctx.loc(node)}")
         if t == "enum":
             ref: EnumRef = base[1]
@@ -1849,7 +2124,13 @@ class Interp:
                     if mth is not None:
                         if any(d.split("(")[0].split(".")[-1] == "staticmethod" for d in mth.decorators):
                             return ("func", mth)
+                        if any(d.split("(")[0].split(".")[-1] == "classmethod" for d in mth.decorators):
+                            return ("bound", ("class", ho.cls), mth)
                         return ("bound", base, mth)
+                if ho.cls is not None:
+                    ca = ho.cls.class_level_init(attr)
+                    if ca is not None:
+                        return self.class_attr_value(ca[0], attr, ca[1], st, ctx, node)
                 if ho.symbolic:
                     typ: Any = "any"
                     if ho.cls is not None:
@@ -1937,8 +2218,12 @@ class Interp:
     def ev_Await(self, node: ast.Await, st: State, ctx: Ctx) -> Term:
         inner = node.value
         if isinstance(inner, ast.Call):
-            return self.ev_Call(inner, st, ctx, awaited=True)
-        return self.eval(inner, st, ctx)
+            v = self.ev_Call(inner, st, ctx, awaited=True)
+        else:
+            v = self.eval(inner, st, ctx)
+        if isinstance(v, tuple) and v[:1] == ("coro",):
+            return self.call(v[1], list(v[2]), dict(v[3]), st, ctx, node, True)
+        return v
 
     def ev_Call(self, node: ast.Call, st: State, ctx: Ctx, awaited: bool = False) -> Term:
         fv = self.eval(node.func, st, ctx)
@@ -1963,8 +2248,14 @@ class Interp:
                     if nm in kwargs:
                         vals.append(kwargs[nm])
                 if len(vals) == len(names):
-                    return ("tuple", tuple(vals))
+                    return ("tuple", tuple(vals), ("nt", fv[1].key, tuple(names)))   # (the third component names the fields)
+            tgt_ = fv[1] if t == "func" else fv[2] if t == "bound" else None
+            if tgt_ is not None and getattr(tgt_, "is_async", False) and not awaited and not is_generator(tgt_):
+                # calling a coroutine function only creates the coroutine object; its body runs where it is awaited
+                return ("coro", fv, tuple(args), tuple(sorted(kwargs.items())))
             return self.call_user_nested(fv, args, kwargs, st, ctx, node)
+        if t == "coro" and not args and not kwargs:
+            raise AnalysisError(f"coroutine object called at {ctx.loc(node)}")
         if t == "ext":
             return self.lib.call_ext(self, fv[1], args, kwargs, st, ctx, node, awaited)
         if t == "builtin":
@@ -1975,6 +2266,18 @@ class Interp:
             return self.call_lambda(fv, args, st, ctx, node)
         if t == "partialobj":
             return self.call(fv[1], list(fv[2]) + args, kwargs, st, ctx, node, awaited)
+        if t == "ntmeth":
+            vals_, (_, ckey_, names_) = list(fv[1][1]), fv[1][2]
+            if fv[2] == "_replace" and not args:
+                for k_, v_ in kwargs.items():
+                    if k_ not in names_:
+                        st.may_raise("ValueError", c(True), ctx.loc(node))
+                        return top(f"never: _replace got an unexpected field name {k_}")
+                    vals_[names_.index(k_)] = v_
+                return ("tuple", tuple(vals_), fv[1][2])
+            if fv[2] == "_asdict" and not args and not kwargs:
+                return ("cdict", tuple((c(n_), v_) for n_, v_ in zip(names_, vals_))) if all(self.reify(v_, st) is not None for v_ in vals_) else st.alloc(HeapObj("dict", None, {}, [(c(n_), v_) for n_, v_ in zip(names_, vals_)]))
+            raise AnalysisError(f"NamedTuple method {fv[2]} in a form that is not modelled at {ctx.loc(node)}")
         if t == "biometh" and not kwargs:
             # an in-memory byte stream: the buffer and a constant read position
             ho = st.heap[fv[1][1]]
@@ -2439,6 +2742,11 @@ def _benign_event(e: Event, st: State) -> bool:
         return True
     if e.kind in ("caught", "iter", "readattr", "reorder"):
         return True
+    if e.kind == "call" and e.target.rsplit(".", 1)[-1] in ("get", "keys", "values", "items", "copy") and "." in e.target:
+        # a read of a dict whose content the model leaves open (self._transports): recorded as a call, but it changes nothing
+        base = e.target.rsplit(".", 1)[0]
+        if any(ho.kind == "dict" and ho.symbolic and ho.name == base for ho in st.heap.values()):
+            return True
     return False
 
 
